@@ -628,6 +628,24 @@ def consts_crosscheck(ctx, boiler):
         pass
 
 
+def entities_crosscheck(ctx):
+    """the model's entity table against the map literals of the library source the repo's go.mod selects
+    (cross-check only: a name the table lacks would not be exercised by the unesc cases)"""
+    try:
+        ver = re.search(r"golang.org/x/net (v\S+)", open(vlib.REPO + "/go.mod").read()).group(1)
+        import subprocess
+        cache = subprocess.run(["go", "env", "GOMODCACHE"], capture_output=True, text=True, timeout=60).stdout.strip()
+        src = open("%s/golang.org/x/net@%s/html/entity.go" % (cache, ver)).read()
+    except Exception:
+        return
+    lib = set(m.encode() for m in re.findall(r'^\t"([A-Za-z0-9]+;?)":', src, re.M))
+    mine = set(entity_names())
+    if lib != mine:
+        ctx.not_shown("constants: coq/Model/HtmlEntities.v differs from x/net/html/entity.go (%d names only in the library, %d only in the model)"
+                      % (len(lib - mine), len(mine - lib)))
+    ctx.extra["entity_table_crosschecked"] = len(mine)
+
+
 def run(ctx):
     exe = vlib.go_build("./zz_verif/armor")
     ctx.trusted += ["golang.org/x/net/html tokenizer, bufio.Scanner, io.Pipe and base64.NewDecoder are library code: modelled "
@@ -641,6 +659,7 @@ def run(ctx):
     b = vlib.run_model([AREA + " boiler"])[0].split(".")
     STATE["bs"], STATE["be"] = bytes.fromhex(b[0]), bytes.fromhex(b[1])
     consts_crosscheck(ctx, (STATE["bs"], STATE["be"]))
+    entities_crosscheck(ctx)
     lines, kinds = gen(ctx)
     ctx.correspond(exe, lines, kinds, label="amp-armor", prop=prop, key_of=key_of)
     # bounded buffering / no hang on an endless document (implementation monitors only): a well-formed document
